@@ -101,3 +101,32 @@ def multi_section(env, nsec, nx, ny, symmetry):
             env.eq("C14", "section %d: span == requested span" % k, secs[k][0, -1, 1] - secs[k][0, 0, 1], b[k] * b[k])
         uni = env.call(unify_mesh, [dict(mesh=m) for m in secs])
         env.eq("C14", "unifying the sections reproduces the contiguous surface node for node", uni, mesh)
+
+
+@job("c14.crm_tables", ("C14",))
+def crm_tables(env):
+    """the tabulated CRM planforms (every variant the generator accepts): span station eta and the leading-edge y strictly
+    increasing and proportional (y = eta * semi-span to 0.1 %), leading-edge x increasing (swept-back wing), chord positive
+    and decreasing from the root to the tip - no mistyped entry folds the planform back on itself.  Exhaustive over the
+    rows of every table (data, decided by evaluation)."""
+    from openaerostruct.geometry.CRM_definitions import get_crm_points
+    variants = ["CRM", "CRM:jig", "CRM:jig_wind_tunnel"] + ["CRM:alpha_%s" % a for a in ("2.50", "2.75", "3.00", "3.25", "3.50", "3.75", "4.00")]
+    seen = 0
+    for v in variants:
+        try:
+            T = np.asarray(get_crm_points(v), dtype=float)
+        except Exception as e:
+            env.holds("C14", "CRM table %s is available" % v, False, "%s: %s" % (type(e).__name__, e))
+            continue
+        seen += 1
+        eta, xle, yle, chord = T[:, 0], T[:, 1], T[:, 2], T[:, 5]
+        inc = lambda a: bool(np.all(np.diff(a) > 0))
+        env.holds("C14", "CRM table %s: span stations strictly increase" % v, inc(eta), str(eta[:-1][np.diff(eta) <= 0]))
+        env.holds("C14", "CRM table %s: leading-edge y strictly increases" % v, inc(yle), str(yle[:-1][np.diff(yle) <= 0]))
+        env.holds("C14", "CRM table %s: leading-edge x increases (swept back)" % v, inc(xle), str(xle[:-1][np.diff(xle) <= 0]))
+        env.holds("C14", "CRM table %s: chord positive and not increasing outboard" % v, bool(np.all(chord > 0) and np.all(np.diff(chord) <= 1e-9 * chord[0])),
+                  str(chord))
+        ratio = yle[1:] / eta[1:]
+        env.holds("C14", "CRM table %s: leading-edge y == eta * semi-span (0.1 %%)" % v, bool(np.all(np.abs(ratio / ratio[-1] - 1) < 1e-3)),
+                  "y/eta = %s" % np.round(ratio, 2))
+    env.holds("C14", "the CRM tables were found", seen >= 9, "%d" % seen)
